@@ -740,7 +740,7 @@ func runC15(c *Ctx) {
 		}
 	}
 	c15bulk(c, tmp)
-	c.Require("registry_alias_checks", "cold_start_processes", "bulk_requests")
+	c.Require("bulk_sign_key_ids_checked", "registry_alias_checks", "cold_start_processes", "bulk_requests")
 }
 
 // ---- bulk stream checker -----------------------------------------------------------
@@ -810,6 +810,10 @@ func c15bulk(c *Ctx, tmp string) {
 		case 3:
 			return bulkReq{"validate", id, map[string]any{"data": b64env}}, "validate:" + it.Rel
 		case 4:
+			if rng.IntN(2) == 0 {
+				// a request that brings its own key, among requests relying on the server's
+				return bulkReq{"sign", id, map[string]any{"data": b64doc, "privatekey": json.RawMessage(c15ownKeyJSON)}}, "sign-own-key:" + it.Rel
+			}
 			return bulkReq{"sign", id, map[string]any{"data": b64doc}}, "sign:" + it.Rel
 		case 5:
 			return bulkReq{"verify", id, map[string]any{"data": b64env, "publickey": json.RawMessage(pub)}}, "verify:" + it.Rel
@@ -942,6 +946,19 @@ func c15bulk(c *Ctx, tmp string) {
 					c.R.Count("standalone_errors", 1)
 					continue
 				}
+				// a signed envelope must carry the key id of the key the request asked for:
+				// its own, or the server's default (the standalone run shares the server, so
+				// this is checked against what the harness knows, not against that run)
+				if rq.Action == "sign" && (len(g.Error) == 0 || string(g.Error) == "null") {
+					wantKid := server.Key.ID()
+					if strings.HasPrefix(kinds[i], "sign-own-key") {
+						wantKid = c15ownKey.ID()
+					}
+					c.R.Count("bulk_sign_key_ids_checked", 1)
+					if kid := c15sigKid(g.Payload); kid != wantKid {
+						c.R.Fail("bulk:sign-key:"+strings.SplitN(kinds[i], ":", 2)[0], fmt.Sprintf("stream %d: %s (%s) was signed with key id %q, expected %q", s, rq.ReqID, kinds[i], kid, wantKid), wit())
+					}
+				}
 				if have := comparablePayload(rq.Action, g); have != want {
 					c.R.Fail("bulk:payload:"+strings.SplitN(kinds[i], ":", 2)[0], fmt.Sprintf("stream %d: response to %s (%s) differs from the standalone operation: %s vs %s", s, rq.ReqID, kinds[i], trunc(have), trunc(want)), wit())
 				}
@@ -1008,6 +1025,29 @@ func finalIndex(rs []bulkResp) int {
 }
 
 // comparablePayload reduces a response to what is determined by the request.
+var c15ownKey = dsig.NewES256Key()
+var c15ownKeyJSON, _ = json.Marshal(c15ownKey)
+
+// c15sigKid reads the key id from the protected header of the first signature.
+func c15sigKid(payload json.RawMessage) string {
+	var e struct {
+		Sigs []string `json:"sigs"`
+	}
+	if json.Unmarshal(payload, &e) != nil || len(e.Sigs) == 0 {
+		return "(no signature)"
+	}
+	seg := strings.SplitN(e.Sigs[0], ".", 2)[0]
+	b, err := base64.RawURLEncoding.DecodeString(seg)
+	if err != nil {
+		return "(unreadable header)"
+	}
+	var h struct {
+		Kid string `json:"kid"`
+	}
+	_ = json.Unmarshal(b, &h)
+	return h.Kid
+}
+
 func comparablePayload(action string, r bulkResp) string {
 	if len(r.Error) > 0 && string(r.Error) != "null" {
 		return "error:" + string(r.Error)
